@@ -98,6 +98,10 @@ is_assignable(CPPType *type) {
   case CPPDeclaration::ST_typedef:
     return is_assignable(type->as_typedef_type()->_type);
 
+  case CPPDeclaration::ST_array:
+    // An array is copied element by element, which needs its bound.
+    return type->as_array_type()->_bounds != nullptr;
+
   default:
     return true;
   }
